@@ -4,6 +4,7 @@ canonical text the Lean driver prints.  Run with /venv/bin/python."""
 from __future__ import annotations
 
 import os
+import zlib
 import sys
 import warnings
 from collections import deque
@@ -475,6 +476,31 @@ def _opt_int(t):
     return None if t == '-' else int(t)
 
 
+def _shaped(t, salt=''):
+    """the cards `t` names, in one of the documented `CardsLike` shapes (a string, a tuple, a list, a
+    one-shot iterator, a bare Card) — chosen from the text alone, so that a replay makes the same
+    choice; a fresh object on every call, so that an iterator is never shared between the query, the
+    verifier and the operation"""
+    if os.environ.get('VERIF_PLAIN_CARDS'):
+        return t
+    k = zlib.crc32((salt + t).encode()) % 6
+    try:
+        cards = tuple(Card.parse(t))
+    except Exception:  # noqa: BLE001  not parseable: the string itself is the argument
+        return t
+    if k == 1:
+        return cards
+    if k == 2:
+        return list(cards)
+    if k == 3:
+        return iter(cards)
+    if k == 4:
+        return Card.parse(t)
+    if k == 5 and len(cards) == 1:
+        return cards[0]
+    return t
+
+
 def _cards_arg(t):
     if t == '-':
         return None
@@ -482,7 +508,7 @@ def _cards_arg(t):
         return int(t[1:])
     if t == '=':
         return ()
-    return t
+    return _shaped(t)
 
 
 def _show_arg(t):
@@ -494,7 +520,7 @@ def _show_arg(t):
         return False
     if t == '=':
         return ()
-    return t
+    return _shaped(t, 'show')
 
 
 def call_op(s: State, line: str):
@@ -513,7 +539,7 @@ def call_op(s: State, line: str):
     if name == 'deal_board':
         return s.deal_board(_cards_arg(t[1]))
     if name == 'draw':
-        return s.stand_pat_or_discard(() if t[1] in ('-', '=') else t[1])
+        return s.stand_pat_or_discard(() if t[1] in ('-', '=') else _shaped(t[1], 'draw'))
     if name == 'fold':
         return s.fold()
     if name == 'call':
@@ -553,7 +579,7 @@ def call_can(s: State, line: str):
     if name == 'deal_board':
         return s.can_deal_board(_cards_arg(t[1]))
     if name == 'draw':
-        return s.can_stand_pat_or_discard(() if t[1] in ('-', '=') else t[1])
+        return s.can_stand_pat_or_discard(() if t[1] in ('-', '=') else _shaped(t[1], 'draw'))
     if name == 'fold':
         return s.can_fold()
     if name == 'call':
